@@ -526,7 +526,8 @@ pub fn op_assign<B: Be>(mut doc: B, p: &Pointer, v: B) -> String {
     let mut law_ryw = Law::new();
     if r.is_ok() {
         match ryw_walk(&doc, &toks) {
-            Some(n) => law_ryw.ck(*n == v, "reads_a_different_value"),
+            // identity of the value, not `==`: `0.0 == -0.0` for both backends, yet they are different values
+            Some(n) => law_ryw.ck(*n == v && n.to_doc().print() == v.to_doc().print(), "reads_a_different_value"),
             None => law_ryw.fail("pointer_does_not_resolve_afterwards"),
         }
     }
@@ -539,7 +540,7 @@ pub fn op_assign<B: Be>(mut doc: B, p: &Pointer, v: B) -> String {
     {
         if let Ok((node, _)) = ref_walk(&old, &toks) {
             match &r {
-                Ok(Some(x)) => law_replaced.ck(x == node, "returned_value_is_not_the_old_value"),
+                Ok(Some(x)) => law_replaced.ck(x == node && x.to_doc().print() == node.to_doc().print(), "returned_value_is_not_the_old_value"),
                 Ok(None) => law_replaced.fail("none_although_pointer_resolved"),
                 Err(_) => law_replaced.fail("error_although_pointer_resolved"),
             }
@@ -567,7 +568,7 @@ pub fn op_assign<B: Be>(mut doc: B, p: &Pointer, v: B) -> String {
     if r.is_ok() && !toks.iter().any(|t| *t == "-") {
         let mut again = doc.clone();
         match again.assign(p, v.clone()) {
-            Ok(Some(x)) => law_idem.ck(x == v, "second_assign_returned_another_value"),
+            Ok(Some(x)) => law_idem.ck(x == v && x.to_doc().print() == v.to_doc().print(), "second_assign_returned_another_value"),
             Ok(None) => law_idem.fail("second_assign_returned_none"),
             Err(_) => law_idem.fail("second_assign_failed"),
         }
